@@ -2,6 +2,7 @@
    Model: Model/PwCache.v over the stores of Model/Storage.v. *)
 From Coq Require Import List NArith ZArith Bool.
 From KM Require Import Model.Storage Proofs.Storage Model.PwCache Proofs.PwCache.
+From KM Require Import Base.Bytes Model.PwBackend Proofs.PwBackend.
 Import ListNotations.
 Open Scope Z_scope.
 
@@ -198,6 +199,50 @@ Theorem c07_backend : forall backend raw pw,
 Proof. intros. split; [apply backend_normalised|apply normalise_idem]. Qed.
 Print Assumptions c07_backend.
 
+(* ---- the htpassword / command backends over TIME (Model/PwBackend.v): the file the backend reads (the
+   table the command consults) is edited between logins - a password changed, a user removed, a user
+   added - in any WAY: rewritten in place or replaced by rename, leaving any size and any
+   modification time (the old one restored, a fresh one, an earlier one).  For every history, the
+   verdict of a login at time t is the backend's verdict on the content the file has at time t, where
+   that content is the fold of the edits alone. *)
+Theorem c07_backend_fresh : forall (f : content) (size : N) (mtime : Z) (pre : list bop) (raw : bs) (pw : N) (post : list bop),
+  nth (length pre) (bouts (binit f size mtime) (pre ++ BLogin raw pw :: post)) None =
+  Some (file_accepts (content_after f pre) (normalise raw) pw).
+Proof. intros f size mtime pre raw pw post. exact (backend_fresh (binit f size mtime) pre raw pw post). Qed.
+Print Assumptions c07_backend_fresh.
+
+(* two histories that differ only in the ways the edits were made (and in the metadata the file
+   started with) answer every login alike *)
+Theorem c07_backend_how_irrelevant : forall (f : content) (size size' : N) (mtime mtime' : Z) (ops ops' : list bop),
+  map erase ops = map erase ops' ->
+  bouts (binit f size mtime) ops = bouts (binit f size' mtime') ops'.
+Proof. intros f size size' mtime mtime' ops ops' M. exact (bouts_erase ops ops' (binit f size mtime) (binit f size' mtime') M eq_refl). Qed.
+Print Assumptions c07_backend_how_irrelevant.
+
+(* what the content says after an edit: a changed password is the only one accepted, a removed user
+   is refused with every password, an added user is accepted with the password of the new line, and
+   nobody else's verdict moves *)
+Theorem c07_backend_edit_final : forall (f : content) (h : how) (u : bs) (p pw : N),
+  (lookup u f <> None -> file_accepts (edit f (BChangePw h u p)) u pw = (p =? pw)%N) /\
+  file_accepts (edit f (BRemoveUser h u)) u pw = false /\
+  (lookup u f = None -> file_accepts (edit f (BAddUser h u p)) u pw = (p =? pw)%N) /\
+  (forall o v, subject o <> Some v -> file_accepts (edit f o) v pw = file_accepts f v pw).
+Proof. exact edit_final. Qed.
+Print Assumptions c07_backend_edit_final.
+
+(* NOT the code: a backend that keeps the parsed file and reads it again only when stat shows another
+   size or modification time ([cstep]).  A password change that keeps both (bcrypt lines have a fixed
+   length; mtime restored) leaves the old password accepted and the new one refused, while the
+   machine of the code follows the file; an edit that moves either is seen by the variant too. *)
+Theorem c07_backend_stat_cache_refuted :
+  let f0 := [(alice, 1%N)] in
+  couts (cinit f0 300 1000%Z) stat_cache_history = [Some true; None; Some true; Some false] /\
+  bouts (binit f0 300 1000%Z) stat_cache_history = [Some true; None; Some false; Some true] /\
+  file_accepts (content_after f0 (firstn 2 stat_cache_history)) alice 1 = false /\
+  file_accepts (content_after f0 (firstn 2 stat_cache_history)) alice 2 = true.
+Proof. exact stat_cache_refuted. Qed.
+Print Assumptions c07_backend_stat_cache_refuted.
+
 (* ---- false of the code before the repairs *)
 Theorem c07_old_expired_record_refuted :
   snd (pstep_old (prun_old 1 (removelast old_expired_history)) (Login 1 7)) = Some true /\
@@ -291,3 +336,13 @@ Example c07_patterns :
   [None; None; None; Some false; Some true; None; Some false; Some true] /\
   map snd (prun_outs (pinit2 1 0) [SetHome 3 1%nat; ChangePw 3 3; Login 3 3]) = [None; None; Some false].
 Proof. vm_compute. split; reflexivity. Qed.
+
+(* the file edited between logins: in place with size and mtime kept, by rename with a fresh mtime,
+   a user removed, a user added under a name typed in capitals *)
+Example c07_backend_history :
+  bouts (binit [(alice, 1%N)] 300 1000%Z)
+    [BLogin alice 1; BChangePw (mkHow false 300 1000%Z) alice 2; BLogin alice 1; BLogin alice 2;
+     BRemoveUser (mkHow true 240 2000%Z) alice; BLogin alice 2;
+     BAddUser (mkHow false 300 900%Z) alice 3; BLogin [65; 76; 73; 67; 69]%N 3; BLogin alice 2] =
+  [Some true; None; Some false; Some true; None; Some false; None; Some true; Some false].
+Proof. vm_compute. reflexivity. Qed.
